@@ -331,10 +331,9 @@ class SparseGrid(TrainingData, PickleSerializable):
             self.yi_map.setdefault(alpha, dict())
             self.yi_nan_map.setdefault(alpha, dict())
             self.error_map.setdefault(alpha, dict())
-            new_coords = list(self._expand_grid_coords(beta))
-            return new_coords, self._append_grid_points(new_coords[0])
 
-        # Otherwise, refine the sparse grid
+        # Otherwise, refine the sparse grid (no-op for the initial beta, which falls through to only request the
+        # initial grid point if it has not been computed yet for this alpha)
         for beta_old in self.betas:
             # Get the first lower neighbor in the sparse grid and refine the 1d grid if necessary
             if self.is_one_level_refinement(beta_old, beta):
